@@ -106,7 +106,87 @@ fn one(ctx: &mut Ctx, chunks: &[Vec<u8>], reqs: &[usize], with_literal: bool) {
     }
 }
 
+/// "Consequently a text-mode signature is invariant under converting the document between LF and
+/// CRLF line endings, and is not invariant under any other change" — through the streaming message
+/// reader with one, two and three text-mode signers (each hasher has its own state across the
+/// reader's 8 KiB pieces) and through the detached path (oracle only)
+fn e2e_text_signatures(ctx: &mut Ctx) {
+    use pgp::composed::{DetachedSignature, Message, MessageBuilder};
+    use pgp::crypto::hash::HashAlgorithm;
+    use pgp::types::{KeyVersion, Password};
+    use rand::SeedableRng;
+    let mut rng = rand_chacha::ChaCha8Rng::seed_from_u64(1414 + ctx.seed);
+    let ks = [crate::keys::ed25519_x25519(&mut rng, KeyVersion::V4), crate::keys::ed25519_x25519(&mut rng, KeyVersion::V6), crate::keys::ed25519_x25519(&mut rng, KeyVersion::V4)];
+    let pks: Vec<_> = ks.iter().map(|k| k.to_public_key()).collect();
+    let edges = [511usize, 512, 513, 1023, 1024, 8191, 8192, 8193, 16383, 16384, 16385];
+    let n = ctx.pick(36, 400);
+    for i in 0..n {
+        let len = match i % 4 { 0 => 8192 + (i / 4) % 3, 1 => 16384 + (i / 4) % 3, 2 => 1024 + i, _ => ctx.rng.gen_range(1..20000usize) };
+        let mut s = gen::random_text(&mut ctx.rng, len, b"\r\nxy z");
+        for &e in &edges {
+            if e < s.len() && e >= 1 {
+                match ctx.rng.gen_range(0..4) {
+                    0 => { s[e - 1] = b'\r'; s[e] = b'\n'; }
+                    1 => { s[e - 1] = b'x'; s[e] = b'\n'; }
+                    2 => { s[e - 1] = b'\r'; s[e] = b'x'; }
+                    _ => {}
+                }
+            }
+        }
+        let k = 1 + i % 3;
+        let input = format!("signers={k} |text|={} sha256={}", s.len(), hx(&sha2_256(&s)));
+        let built = guarded(|| {
+            let mut b = MessageBuilder::from_bytes("", s.clone());
+            b.sign_text();
+            for key in ks.iter().take(k) {
+                b.sign(&key.primary_key, Password::empty(), HashAlgorithm::Sha256);
+            }
+            b.to_vec(&mut rng).ok()
+        });
+        let Ok(Some(msg)) = built else {
+            ctx.oracle("text_signature_follows_canon", "MessageBuilder::sign_text", &input, false, "could not sign");
+            continue;
+        };
+        // inline, streaming, each signer
+        let r = guarded(|| {
+            let mut m = Message::from_bytes(&msg[..]).ok()?;
+            let mut out = Vec::new();
+            m.read_to_end(&mut out).ok()?;
+            Some((0..k).map(|j| m.verify_nested_explicit(j, &pks[j].primary_key as &dyn pgp::types::VerifyingKey).is_ok()).collect::<Vec<bool>>())
+        });
+        let all = matches!(&r, Ok(Some(v)) if v.iter().all(|b| *b));
+        ctx.oracle("text_signature_follows_canon", "SignatureManyReader / SignatureOnePassManyReader (text mode)", &input, all, &format!("verdicts {r:?}"));
+        // detached: the signature over s holds for t iff canon(t) = canon(s)
+        if i % 3 == 0 {
+            let det = guarded(|| DetachedSignature::sign_text_data(&mut rng, &ks[0].primary_key, &Password::empty(), HashAlgorithm::Sha256, &s[..]).ok());
+            if let Ok(Some(det)) = det {
+                let mut variants: Vec<(String, Vec<u8>)> = vec![("crlf".into(), canon_ref(&s)), ("same".into(), s.clone())];
+                // canonical form with every CRLF made LF only when that loses nothing (no CR CR LF ambiguity)
+                let mut t = s.clone();
+                let pos = ctx.rng.gen_range(0..t.len());
+                t[pos] = if t[pos] == b'x' { b'y' } else { b'x' };
+                variants.push(("one_octet_changed".into(), t));
+                let mut t = s.clone();
+                t.push(b'\r');
+                variants.push(("trailing_cr".into(), t));
+                for (name, t) in variants {
+                    let want = canon_ref(&t) == canon_ref(&s);
+                    let got = guarded(|| det.verify(&pks[0].primary_key, &t[..]).is_ok());
+                    ctx.oracle("text_signature_follows_canon", "DetachedSignature::verify (text mode)", &format!("{input} variant={name}"), got == Ok(want), &format!("verified {got:?}, canonical forms equal {want}"));
+                }
+            }
+        }
+        ctx.stat("gen:e2e_text_signatures");
+    }
+}
+
+fn sha2_256(d: &[u8]) -> Vec<u8> {
+    use sha2::Digest;
+    sha2::Sha256::digest(d).to_vec()
+}
+
 pub fn run(ctx: &mut Ctx) {
+    e2e_text_signatures(ctx);
     let alphabet = [b'\r', b'\n', b'x'];
     // exhaustive: all strings up to length L, all chunkings up to length Lc
     let (l_all, l_chunk) = ctx.pick((8usize, 6usize), (10usize, 8usize));
